@@ -1,7 +1,7 @@
 (* ApiV2/Props.v — property C15: the theorems, nothing else.
    Each is closed by [exact <lemma>] and followed by Print Assumptions. *)
 From Coq Require Import String.
-From Verif Require Import ApiV2.Model ApiV2.ProofsKey ApiV2.ProofsRegion ApiV2.ProofsStore ApiV2.Catalogue.
+From Verif Require Import ApiV2.Model ApiV2.ProofsKey ApiV2.ProofsRegion ApiV2.ProofsStore ApiV2.ProofsPD ApiV2.Catalogue.
 Open Scope N_scope.
 
 (* --- keys --- *)
@@ -103,6 +103,73 @@ Theorem C15_region_roundtrip : forall c s e,
 Proof. exact region_range_roundtrip. Qed.
 Print Assumptions C15_region_roundtrip.
 
+(* --- PD side (CodecPDClient under API v2) --- *)
+(* GetRegion / GetPrevRegion / ScanRegions: the region PD selects by comparing EncodeRegionKey(k) with the
+   memcomparable bounds decodes to a logical region that contains k and is exactly the physical region's
+   share of the keyspace *)
+Theorem C15_pd_locate : forall c s e k, in_range (mem_enc s) (mem_enc e) (encode_region_key c k) ->
+  exists s' e', decode_region_range c (mem_enc s) (mem_enc e) = ROk s' e' /\ in_range s' e' k /\
+                (forall k', in_range s' e' k' <-> in_range s e (encode_key c k')).
+Proof. exact pd_locate. Qed.
+Print Assumptions C15_pd_locate.
+
+(* GetRegionByID / a scan result: a proper region without any key of the keyspace is an error, never a region *)
+Theorem C15_pd_outside_error : forall c s e, (e = [] \/ lex_lt s e) ->
+  (forall k, ~ in_range s e (encode_key c k)) -> decode_range c s e = ROutOfBound.
+Proof. exact region_outside_error. Qed.
+Print Assumptions C15_pd_outside_error.
+
+(* ScanRegions / BatchScanRegions: neighbouring regions stay neighbours after decoding *)
+Theorem C15_pd_contiguous : forall c s m e s1 e1 s2 e2,
+  decode_range c s m = ROk s1 e1 -> decode_range c m e = ROk s2 e2 -> e1 = s2.
+Proof. exact pd_contiguous. Qed.
+Print Assumptions C15_pd_contiguous.
+
+(* DecodeBucketKeys: the non-empty logical boundaries are exactly the stripped in-keyspace boundaries; two
+   logical keys fall into different buckets iff their images do *)
+Theorem C15_bucket_separators : forall c keys ks out, map_opt mem_decode_opt keys = Some ks ->
+  decode_bucket_keys c keys = Some out ->
+  forall x, x <> [] -> (In x out <-> In (encode_key c x) ks).
+Proof. exact bucket_separators. Qed.
+Print Assumptions C15_bucket_separators.
+
+Theorem C15_bucket_same_bucket : forall c keys ks out, map_opt mem_decode_opt keys = Some ks ->
+  decode_bucket_keys c keys = Some out ->
+  forall x y, (exists l, In l out /\ l <> [] /\ lex_lt x l /\ lex_le l y) <->
+              (exists b, In b ks /\ lex_lt (encode_key c x) b /\ lex_le b (encode_key c y)).
+Proof. exact bucket_same_bucket. Qed.
+Print Assumptions C15_bucket_same_bucket.
+
+(* the bucket list starts at the decoded region start and ends at the decoded region end *)
+Theorem C15_bucket_first : forall c k0 rest kn s e, rest <> [] -> decode_range c k0 kn = ROk s e ->
+  exists t, dbk c true [] (k0 :: rest) = s :: t.
+Proof. exact bucket_first. Qed.
+Print Assumptions C15_bucket_first.
+
+Theorem C15_bucket_last_partial : forall c rest f out k0 s e, rest <> [] ->
+  decode_range c k0 (last rest []) = ROk s e -> ~ short_start c (last rest []) ->
+  last (dbk c f out rest) [0] = e.
+Proof. exact bucket_last. Qed.
+Print Assumptions C15_bucket_last_partial.
+
+(* full strength is refuted by the code as it is: keyspace 255 raw, buckets [..a, ..m, 72 00 01]: the region
+   end 72 00 01 decodes to the unbounded end, but the bucket list ends at "m" *)
+Theorem C15_bucket_last_refuted :
+  ~ (forall c rest k0 s e, rest <> [] -> decode_range c k0 (last rest []) = ROk s e ->
+       last (dbk c true [] (k0 :: rest)) [0] = e).
+Proof. exact bucket_last_refuted. Qed.
+Print Assumptions C15_bucket_last_refuted.
+
+(* ParseKeyspaceID *)
+Theorem C15_parse_keyspace_id : forall c k, ks_ok c -> parse_keyspace_id (encode_key c k) = Some (ks_id c).
+Proof. exact parse_encode. Qed.
+Print Assumptions C15_parse_keyspace_id.
+
+Theorem C15_parse_keyspace_id_strict : forall b id, wf_bytes b -> parse_keyspace_id b = Some id ->
+  exists c k, ks_ok c /\ ks_id c = id /\ b = encode_key c k.
+Proof. exact parse_strict. Qed.
+Print Assumptions C15_parse_keyspace_id_strict.
+
 (* --- transparency over an abstract ordered-map store --- *)
 (* one step of a keyspace-bound client on a shared store = the same step of an unprefixed client on
    the logical view; no other keyspace's view changes; the store stays admissible *)
@@ -149,6 +216,23 @@ Example ex_clip : decode_range (mkks Raw 1) [114; 0; 0; 0; 9] [114; 0; 0; 1; 7] 
   /\ decode_range (mkks Raw 1) [114; 0; 0; 2] [] = ROutOfBound
   /\ decode_range (mkks Raw 255) [114; 0; 1] [114; 0; 1; 0; 5] = ROutOfBound
   /\ decode_range_gen false (mkks Raw 255) [114; 0; 1] [114; 0; 1; 0; 5] = ROk [] [].
+Proof. repeat split; vm_compute; reflexivity. Qed.
+(* end of the id space: id 0xFFFFFF carries into the mode byte; isolation and clipping instances there *)
+Example ex_last_id : prefix (mkks Raw 16777215) = [114; 255; 255; 255] /\ end_key (mkks Raw 16777215) = [115; 0; 0; 0]
+  /\ ks_ok (mkks Raw 16777215) /\ mkks Raw 16777215 <> mkks Txn 16777215
+  /\ decode_key (mkks Txn 16777215) (encode_key (mkks Raw 16777215) [1]) = None
+  /\ decode_key (mkks Raw 0) (encode_key (mkks Raw 16777215) [1]) = None
+  /\ in_rangeb (encode_key (mkks Raw 16777215) []) (enc_end (mkks Raw 16777215) []) (encode_key (mkks Txn 0) []) = false
+  /\ decode_range (mkks Raw 16777215) [115] [] = ROutOfBound
+  /\ decode_range (mkks Raw 16777215) [114; 255; 255; 254; 9] [115; 0] = ROk [] []
+  /\ decode_range (mkks Raw 16777215) [114; 255; 255; 255; 7] [114; 255; 255; 255; 9] = ROk [7] [9].
+Proof. repeat split; try (vm_compute; reflexivity); try (vm_compute; congruence). Qed.
+Example ex_isolation_modes : forall id k1 k2, id < two24 -> encode_key (mkks Raw id) k1 <> encode_key (mkks Txn id) k2.
+Proof. intros id k1 k2 H. apply C15_isolation; try exact H. congruence. Qed.
+Example ex_buckets :
+  decode_bucket_keys (mkks Raw 1) [[]; encode_bytes [114;0;0;1]; encode_bytes [114;0;0;1;5]; encode_bytes [114;0;0;2;1]]
+    = Some [[]; [5]; []]
+  /\ parse_keyspace_id [120; 0; 1; 2; 9] = Some 258 /\ parse_keyspace_id [109; 0; 1; 2] = None /\ parse_keyspace_id [120; 0; 1] = None.
 Proof. repeat split; vm_compute; reflexivity. Qed.
 Example ex_known_gap : known_gap ["resp:RegionError.Bucket"%string] "catalogue_gap:Get:resp:RegionError.BucketVersionNotMatch"%string = true
   /\ known_gap ["resp:RegionError.Bucket"%string] "catalogue_gap:Get:resp:RegionError"%string = false.
